@@ -579,12 +579,125 @@ def overlong(kind: int, i: int, dot: bool, comp: bool) -> bool:
 
 BOUNDS = {"quick": {"lab": 2, "names": 2, "txt": 1}, "thorough": {"lab": 3, "names": 4, "txt": 2}}
 B = {}
-HARNESSES = [H(name_rt, shards=[("len(l1) == 2", "len(l2) == 2", "len(l3) == 1")]),
-             H(query_rt),
-             H(rr_rt, shards=_RR_SHARDS, timeout={"quick": 90, "thorough": 900}),
-             H(hdr_rt),
-             H(msg_rt, shards=[("nq == %d" % a, "na == %d" % c) for a in range(3) for c in range(3)],
-               timeout={"quick": 90, "thorough": 900}),
-             H(trunc, shards=[("nq == 0",), ("nq == 1",)], timeout={"quick": 120, "thorough": 900}),
-             H(overlong, shards=[("kind == 0",), ("kind == 1", "i < %d" % len(TOTALS))]),
-             H(names_comp, shards=[("len(l1) == 2", "len(l2) == 2"), ("len(l1) == 1", "len(l2) == 2")])]
+ENCODED = ["twisted.names.dns:" + n for n in (
+    "Name.encode", "Name.decode", "Query.encode", "Query.decode", "RRHeader.encode", "RRHeader.decode",
+    "Message.encode", "Message.decode", "Message.parseRecords", "Message.toStr", "Message.fromStr",
+    "Message.lookupRecordType", "readPrecisely", "_ord2bytes", "SimpleRecord.encode", "SimpleRecord.decode",
+    "Record_A.encode", "Record_A.decode", "Record_SOA.encode", "Record_SOA.decode", "Record_MX.encode",
+    "Record_MX.decode", "Record_TXT.encode", "Record_TXT.decode", "Record_SRV.encode", "Record_SRV.decode",
+    "Record_AAAA.encode", "Record_AAAA.decode", "Name.__eq__")]
+BOUNDS_TEXT = ("names of 1-3 labels with 1..lab symbolic bytes per label (any byte but '.'), compression with a "
+               "shared symbolic suffix; Query/RRHeader type, class, ttl and all numeric record fields any in-range "
+               "integer; A/AAAA address and TXT strings symbolic bytes; header id, opCode, rCode and the seven "
+               "flags symbolic; messages with 0-2 queries, 0-2 answers, 0-1 authority, 0-1 additional records "
+               "with names from a menu of `names` names; every size limit from 12 to the full size + 1")
+OUTSIDE = ["the dnspython differential (no second decoder is consulted)",
+           "record types other than A, NS, CNAME, SOA, MX, TXT, SRV, AAAA; EDNS (_EDNSMessage / OPT)",
+           "names in whole messages come from a concrete menu (Message.encode hashes them in its compression "
+           "dict); symbolic label bytes are covered by name_rt / names_comp, which pass a comparing dict",
+           "labels longer than lab symbolic bytes (longer labels appear with concrete content in `overlong`)",
+           "size limits below 12 (the header alone is 12 bytes: the limit cannot be met)",
+           "names with a trailing dot are only checked to be encoded without it",
+           "RRHeader.auth / payload.ttl are taken from the message header / record header when decoding: the "
+           "originals are built accordingly"]
+ASSUMPTIONS = ["LBytes, the struct/BytesIO/ord/bit-operation shims reproduce the real semantics for the operations "
+               "used (differentially tested on every run: selftest) and the lifted module agrees with the real "
+               "one on the concrete vectors (results and encoded bytes compared)"]
+EXPLANATION = ("whole dns.py lifted onto symbolic text; encode then decode with symbolic labels, fields, flags and "
+               "size limit; shapes, record kinds and name menus case-split")
+
+
+def _rr_shards(tier):
+    if tier != "quick":
+        return _RR_SHARDS
+    out = []
+    for sh in _RR_SHARDS:
+        if sh[0] == "ki == 3":      # SOA: 3 sign cases per signed field; split further in the quick tier
+            out.append(sh + ("ni <= 1 and comp",))
+            out.append(sh + ("ni <= 1 and not comp",))
+        else:
+            out.append(sh)
+    return out
+
+
+HARNESSES = [
+    H(name_rt, shards=lambda tier: [("len(l1) == %d" % a, "len(l2) == %d" % c, "len(l3) == 1")
+                                    for a in range(1, BOUNDS[tier]["lab"] + 1) for c in (0, BOUNDS[tier]["lab"])],
+      timeout={"quick": 60, "thorough": 900}),
+    H(names_comp, shards=lambda tier: [("len(l1) == %d" % a, "len(l2) == %d" % c)
+                                       for a in range(1, BOUNDS[tier]["lab"] + 1) for c in range(a, BOUNDS[tier]["lab"] + 1)],
+      timeout={"quick": 90, "thorough": 1200}),
+    H(query_rt),
+    H(rr_rt, shards=_rr_shards, timeout={"quick": 90, "thorough": 900}),
+    H(hdr_rt),
+    H(msg_rt, shards=[("nq == %d" % a, "na == %d" % c) for a in range(3) for c in range(3)],
+      timeout={"quick": 90, "thorough": 1200}),
+    H(trunc, shards=[("nq == 0",), ("nq == 1",)], timeout={"quick": 120, "thorough": 900}),
+    H(overlong, shards=[("kind == 0",), ("kind == 1", "i < %d" % len(TOTALS))]),
+]
+
+VECTORS = {
+    "name_rt": [("ab", "cd", "e"), ("a", "", ""), ("\xff\x00", "\xc0", "x"), ("A", "b", "")],
+    "names_comp": [("ab", "ab", "c"), ("ab", "cd", "e"), ("a", "bc", "\x00"), ("xy", "XY", "z")],
+    "query_rt": [(0, 1, 1), (1, 255, 255), (2, 65535, 0), (3, 28, 1)],
+    "rr_rt": [(0, 0, 1, 3600, 0, 0, 0, 0, 0, 0, "\x01\x02", "\x03\x04", True),
+              (1, 1, 1, 0, 0, 0, 0, 0, 0, 0, "", "", True), (2, 0, 1, 7, 1, 0, 0, 0, 0, 0, "", "", False),
+              (3, 3, 1, 4294967295, 3, 4294967295, -2147483648, 2147483647, -1, 4294967295, "", "", True),
+              (3, 0, 1, 5, 1, 2024010101, 7200, 3600, 1209600, 3600, "", "", False),
+              (4, 0, 1, 300, 1, 10, 0, 0, 0, 0, "", "", True), (5, 2, 1, 9, 0, 0, 0, 0, 0, 0, "hi", "", True),
+              (5, 0, 3, 9, 0, 0, 0, 0, 0, 0, "\x00", "\xff\xc0", False),
+              (6, 1, 1, 60, 0, 1, 0, 65535, 0, 443, "", "", True), (7, 0, 1, 60, 0, 0, 0, 0, 0, 0, "\x20\x01", "", True)],
+    "hdr_rt": [(4660, 1, 2, 1, 1, 1, 3, 0, 1, 1), (0, 0, 0, 0, 0, 0, 0, 0, 0, 0), (65535, 1, 15, 1, 1, 1, 15, 1, 1, 1),
+               (1, 0, 5, 1, 0, 0, 10, 0, 1, 0), (2, 0, 0, 0, 1, 0, 0, 0, 0, 1)],
+    "msg_rt": [(1, 1, 2, 2, 1, 1, 0, 1, 0, 1, 1, 3600, 10, "\x0a\x00", "t"), (2, 0, 0, 0, 0, 0, 0, 0, 0, 0, 0, 0, 0, "ab", "c"),
+               (3, 0, 1, 1, 0, 1, 1, 1, 1, 255, 255, 4294967294, 65535, "\xff\xc0", "\x00"),
+               (4, 1, 2, 0, 1, 0, 0, 0, 1, 15, 3, 1, 1, "zz", "z")],
+    "trunc": [(7, 12, 1, 300, 10, 1, "\x01\x02", "t"), (7, 40, 1, 300, 10, 1, "\x01\x02", "t"),
+              (7, 64, 0, 300, 10, 1, "\x01\x02", "t"), (7, 95, 1, 300, 10, 1, "\x01\x02", "t"),
+              (7, 4000, 1, 300, 10, 1, "\x01\x02", "t"), (9, 77, 1, 1, 2, 3, "ab", "c")],
+    "overlong": [(0, 3, False, True), (0, 5, False, False), (0, 6, False, True), (0, 14, False, True), (0, 17, False, False),
+                 (1, 0, False, True), (1, 5, False, True), (1, 5, True, False), (1, 6, False, True), (1, 6, True, True),
+                 (1, 15, False, False)],
+}
+
+
+def selftest():
+    """shims of this module vs the real struct / BytesIO, plus the shared LBytes self-test"""
+    import io as _io
+    import struct as _st
+    n = lbytes.selftest()
+    for fmt, vals in [("!H", (0,)), ("!H", (65535,)), ("!HH", (1, 515)), ("!HHIH", (1, 2, 4294967295, 4)),
+                      ("!HHIH", (65535, 0, 16909060, 0)), ("!LlllL", (4294967295, -2147483648, 2147483647, -1, 0)),
+                      ("!LlllL", (1, 2, 3, 4, 5)), ("!B", (255,)), ("!HHH", (1, 2, 3)), ("!H2B4H", (4660, 145, 3, 1, 2, 3, 4)),
+                      ("!Q", (2 ** 64 - 1,)), ("!BB", (1, 2)), ("!i", (-5,))]:
+        assert lbytes._s(DnsStruct.pack(fmt, *vals)) == _st.pack(fmt, *vals).decode("latin-1"), (fmt, vals)
+        assert tuple(DnsStruct.unpack(fmt, DnsStruct.pack(fmt, *vals))) == vals
+        n += 2
+    for fmt, vals in [("!H", (65536,)), ("!H", (-1,)), ("!I", (2 ** 32,)), ("!l", (2 ** 31,)), ("!B", (256,))]:
+        try:
+            DnsStruct.pack(fmt, *vals)
+            raise AssertionError((fmt, vals))
+        except _st.error:
+            n += 1
+    a, r = DnsIO(lbytes.LBytes("hello")), _io.BytesIO(b"hello")
+    for op, arg in [("read", 2), ("tell", None), ("write", "XY"), ("seek", 1), ("read", 10), ("seek", 8), ("write", "Z"),
+                    ("seek", 0), ("read", -1), ("seek", 3), ("truncate", None), ("seek", 0), ("read", None), ("read", 1),
+                    ("seek", 2), ("write", "abcdef"), ("tell", None), ("seek", 20), ("read", 1), ("tell", None)]:
+        if op == "write":
+            x, y = a.write(lbytes.LBytes(arg)), r.write(arg.encode("latin-1"))
+        elif arg is None and op != "read":
+            x, y = getattr(a, op)(), getattr(r, op)()
+        else:
+            x, y = getattr(a, op)(arg), getattr(r, op)(arg)
+        if op == "read":
+            x, y = lbytes._s(x), y.decode("latin-1")
+        assert x == y and lbytes._s(a.getvalue()) == r.getvalue().decode("latin-1"), (op, arg, x, y)
+        n += 1
+    for v in (0, 65, 255):
+        assert l_ord(lbytes.LBytes(chr(v))) == v
+    try:
+        l_bytes_checked([256])
+        raise AssertionError("bytes([256])")
+    except ValueError:
+        n += 1
+    return n
